@@ -24,7 +24,9 @@ pub struct FileSplit {
     pub wildcard_imports: bool,
 }
 
-const LIB_PATHS: [&str; 3] = ["lib.graphql", "frags/user.graphql", "frags/deep/more.graphql"];
+// the same base name in nested directories: equal specifier texts ("../lib.graphql") then denote
+// different files depending on the importing file
+const LIB_PATHS: [&str; 3] = ["lib.graphql", "frags/lib.graphql", "frags/deep/lib.graphql"];
 
 fn direct_spreads(sels: &[MSelection], out: &mut BTreeSet<String>) {
     for s in sels {
